@@ -25,7 +25,15 @@ func Malform(r *core.Rng, d *Doc) bool {
 	it := &d.Items[ii]
 	it.Damaged = true
 	if it.Kind == "race" {
-		switch r.Intn(8) {
+		switch r.Intn(10) {
+		case 8:
+			// a file line whose line number no integer holds, in an operation section
+			op := &it.Ops[r.Intn(len(it.Ops))]
+			op.Frames[r.Intn(len(op.Frames))].File = "      /x/y.go:99999999999999999999 +0x1"
+		case 9:
+			// ... and in a creation section
+			cr := &it.Creates[r.Intn(len(it.Creates))]
+			cr.Frames[r.Intn(len(cr.Frames))].File = "      /x/y.go:99999999999999999999 +0x1"
 		case 5:
 			// a number the header's pattern accepts and no integer can hold: the
 			// report is rejected at its first operation, after its two opening lines
